@@ -19,6 +19,7 @@ from vlib.core import Res
 
 PROP = "C14"
 SHARDS = {"quick": 16, "thorough": 16}
+CASE_TIMEOUT_S = 300   # a case that takes longer is inconclusive (counted as ambiguous), never a violation
 RULE = ("Hypothesis: catalogues of 0..40 sources on 48..200 px images in five zenithal projections (every pixel within 1.2 deg "
         "of the reference point), positions anywhere incl. 1..3 px inside the edges and >= 2 px outside, FWHM 2..20 px, axis "
         "ratio 0.3..1, any PA, both signs; options add / mask (frac or sigma; positive sources only) / column renaming. Oracles: "
@@ -37,7 +38,7 @@ ASSUMPTIONS = [
 f = st.floats
 
 src_st = st.fixed_dictionaries({
-    "where": st.sampled_from(["in", "in", "in", "edge", "off"]),
+    "where": st.sampled_from(["in", "in", "in", "in", "edge", "off", "far"]),
     "fx": f(0, 1), "fy": f(0, 1), "side": st.integers(0, 3), "dist": f(0, 1),
     "fwhm": f(2, 20), "ratio": f(0.3, 1.0), "pa": st.one_of(f(-180, 180), st.sampled_from([0.0, 90.0, 45.0])),
     "peak": st.tuples(f(0.1, 10), st.sampled_from([1, 1, 1, -1])).map(lambda t: t[0] * t[1]),
@@ -80,6 +81,11 @@ def build(c):
             px, py = [(0.5 - dist, 1 + t * rows), (cols + 0.5 + dist, 1 + t * rows), (1 + t * cols, 0.5 - dist),
                       (1 + t * cols, rows + 0.5 + dist)][sc["side"]]
         ra, dec = (float(v) for v in w.pix2sky(px, py))
+        if sc["where"] == "far":
+            # a catalogue entry from elsewhere on the sky (e.g. an all-sky catalogue): the other hemisphere, where
+            # SIN/TAN assign no pixel position at all
+            ra, dec = (c["crval"][0] + 150.0 + 60.0 * sc["fx"]) % 360.0, max(-89.0, min(89.0, -c["crval"][1] + 40 * (sc["fy"] - 0.5)))
+            px, py = -1e6, -1e6
         fw = min(sc["fwhm"], 0.25 * min(rows, cols))
         a = fw * s
         b = a * sc["ratio"]
@@ -137,6 +143,10 @@ def check_case(c):
     model = np.asarray(AeRes.make_model(cat, shape, helper), dtype=np.float64)
     if model.shape != tuple(shape):
         res.bad("model-shape", "model shape %r for image shape %r" % (model.shape, shape), **tags)
+        return res
+    if not np.all(np.isfinite(model)):
+        res.bad("model-nonfinite", "%s: the model image has %d non-finite pixels (sources: %s)" % (
+            c["proj"], int(np.sum(~np.isfinite(model))), sorted(set(s_["where"] for s_ in sources))), **tags)
         return res
     expect = np.zeros(shape)
     resolvable = True
@@ -259,7 +269,7 @@ def check_case(c):
                 res.bad("mask-values", "mask mode returns non-zero finite values", **tags)
     finally:
         shutil.rmtree(d, ignore_errors=True)
-    edge = any(s_["where"] in ("edge", "off") for s_ in sources)
+    edge = any(s_["where"] in ("edge", "off", "far") for s_ in sources)
     slanted = any(abs((s_["pa"] % 90.0)) > 1e-6 for s_ in sources)
     res.nontrivial = bool(len(sources) >= 2 and edge and slanted)
     res.label("mode-" + mode, "proj-" + c["proj"])
